@@ -64,6 +64,14 @@ type DS struct {
 	nFired    int
 	// Hook, if set, is called at every operation before latency is applied (e.g. to cancel a client).
 	Hook func(ctx context.Context, op OpInfo)
+	// BoundIterators: iterators stay bound to the CLIENT REQUEST that opened them (a streaming
+	// datastore that receives the request context, cf. the server's contextPropagationToDatastore
+	// option): once that request's root context is done, Next fails with its error whatever context
+	// Next itself is given (e.g. the server context used by a background drain). Binding to the
+	// immediate context of the Read call would be wrong: the engine legitimately cancels
+	// sub-contexts while iterators opened under them are still being consumed.
+	BoundIterators bool
+	roots          map[string]context.Context
 	// Touch log for C26: which stores were touched by which request.
 	touch map[string]map[string]int
 	ops   int64
@@ -80,6 +88,25 @@ func NewDS(inner storage.OpenFGADatastore, run *simrt.Run, cfg DSConfig) *DS {
 }
 
 func (d *DS) Inner() storage.OpenFGADatastore { return d.OpenFGADatastore }
+
+// SetFaults changes the enabled fault kinds and rate during a run (phases of a history).
+func (d *DS) SetFaults(mask int, rate float64) {
+	d.mu.Lock()
+	d.cfg.Faults, d.cfg.FaultRate = mask, rate
+	d.mu.Unlock()
+}
+
+// BindRequest registers the root context of a client request (see BoundIterators).
+func (d *DS) BindRequest(req string, root context.Context) {
+	d.mu.Lock()
+	if d.roots == nil {
+		d.roots = map[string]context.Context{}
+	}
+	d.roots[req] = root
+	d.mu.Unlock()
+}
+
+func (d *DS) SetIterLatency(on bool) { d.mu.Lock(); d.cfg.IterLatency = on; d.mu.Unlock() }
 
 func (d *DS) Fired() map[string]int {
 	d.mu.Lock()
@@ -178,6 +205,11 @@ func (d *DS) wrapIter(ctx context.Context, info OpInfo, it storage.TupleIterator
 	d.OpenIters.Add(1)
 	d.Opened.Add(1)
 	w := &simIter{d: d, inner: it, info: info}
+	if d.BoundIterators {
+		d.mu.Lock()
+		w.openCtx = d.roots[info.Req]
+		d.mu.Unlock()
+	}
 	occ := d.run.Occ("iter|" + info.Req + "|" + info.Sig)
 	w.occ = occ
 	if d.cfg.Faults&FaultIterErr != 0 && d.run.Chance(d.cfg.FaultRate, "itererr", info.Req, info.Sig, occ) {
@@ -199,10 +231,17 @@ type simIter struct {
 	panicAt int
 	failed  bool
 	stopped atomic.Bool
+	openCtx context.Context
 }
 
 func (s *simIter) step(ctx context.Context) error {
 	s.n++
+	if s.openCtx != nil {
+		if err := s.openCtx.Err(); err != nil {
+			simrt.Probe("bound_iterator_ctx_error")
+			return err
+		}
+	}
 	if s.failed {
 		// a persistent error still costs (virtual) time, like a real round trip would
 		if err := s.d.run.SleepUnique(ctx, time.Millisecond); err != nil {
